@@ -27,6 +27,7 @@ type c10Prog struct {
 	Runs        []loadSpec `json:"runs"`                  // >= 3 executions with different concurrency / completion order
 	HeadPerm    []int      `json:"headPerm,omitempty"`    // order of the published head list (empty: the log\'s own order)
 	DupSupplied bool       `json:"dupSupplied,omitempty"` // entries loader: one supplied entry is named twice
+	Roomy       int        `json:"roomy,omitempty"`       // entries loader: spare capacity of the slice the caller hands over (0: none, as a literal has; k: room for k more entries, as a slice cut from a larger one has)
 	Shared      int        `json:"shared,omitempty"`      // 0: a fresh limit variable per load; 1-4: the caller keeps ONE limit variable for all its loads and first uses it for a load through loader #(Shared-1)
 }
 
@@ -51,6 +52,7 @@ func genC10(t *rapid.T) c10Prog {
 		s.Loader = p.Loader
 		p.Runs = append(p.Runs, s)
 	}
+	p.Roomy = rapid.SampledFrom([]int{0, 0, 1, 4, 64, 2000}).Draw(t, "roomy")
 	return p
 }
 
@@ -185,7 +187,10 @@ func runC10(tb ev.TB, p c10Prog) ev.Result {
 			lp = &sharedLimit // the same variable serves every load of this caller
 		}
 		res := gatedOrPlain(tb, coll, w, spec, func() {
-			l, err := doLoad(ctx, w.Store.API(), w, loader, manifest, jsonLog, append([]iface.IPFSLogEntry(nil), suppliedEntries...), hash, lp, spec.Concurrency, nil, 0)
+			// the slice handed over is the caller's: whatever room it has behind its last element, and whatever it holds,
+			// is the caller's too
+			mine := append(make([]iface.IPFSLogEntry, 0, len(suppliedEntries)+p.Roomy), suppliedEntries...)
+			l, err := doLoad(ctx, w.Store.API(), w, loader, manifest, jsonLog, mine, hash, lp, spec.Concurrency, nil, 0)
 			lerr = err
 			if err == nil {
 				hs := world.Hashes(l.GetEntries())
